@@ -446,7 +446,7 @@ def sparse(arr, copy=False, vector_size=None):
     
     """
     if arr.__class__ in SparseSet:
-        return arr
+        return arr.copy() if copy else arr
     else:
         ndim = get_ndim(arr)
         if ndim == 1:
